@@ -170,8 +170,8 @@ func countClass(n int) string {
 
 // clip renders at most the first 600 bytes of b as hex.
 func clip(b []byte) string {
-	if len(b) > 600 {
-		return fmt.Sprintf("%x..(%d bytes)", b[:600], len(b))
+	if len(b) > 300 {
+		return fmt.Sprintf("%x..(%d bytes)", b[:300], len(b))
 	}
 	return fmt.Sprintf("%x", b)
 }
@@ -243,6 +243,91 @@ func vectorCases(yield func(Case)) {
 		}
 		yield(Case{Src: "node-vector", Tx: m})
 	}
+}
+
+// Fresh is a case of the "results are not shared state" sub-check: one (tx, idx,
+// type), plus where the caller scribbles on the buffers it got back.
+type Fresh struct {
+	Tx       ref.Tx `json:"tx"`
+	Idx      int    `json:"idx"`
+	HashType int    `json:"hash_type"`
+	Pos      int    `json:"pos"`  // byte to overwrite (mod length)
+	Mask     int    `json:"mask"` // xor mask 1..255
+}
+
+// checkFresh: the statement says the SINGLE-bug signature hash IS the constant 1
+// (and every other preimage IS the original serialisation) for every call - also
+// for a call made after the caller has used, and written into, the slices an
+// earlier call handed out. The buffers are restored before returning so that a
+// library which hands out shared state does not poison later cases.
+func checkFresh(ctx *pbt.Ctx, c Fresh) error {
+	m := c.Tx
+	tx := ref.ToLib(m)
+	before := ref.Snapshot(tx)
+	flag := sighash.Flag(c.HashType)
+	in := m.In[c.Idx]
+	wantPre, wantHash := ref.SigHashLegacy(m, c.Idx, in.PrevScript, uint32(c.HashType), false)
+	bug := c.HashType&0x1f == 3 && c.Idx >= len(m.Out)
+	if bug {
+		ctx.Label("single_bug_shape")
+		ctx.NonTrivial()
+	} else {
+		ctx.Label("ordinary_shape")
+	}
+	pre1, err1 := tx.CalcInputPreimageLegacy(uint32(c.Idx), flag)
+	sh1, err2 := tx.CalcInputSignatureHash(uint32(c.Idx), flag)
+	if err1 != nil || err2 != nil {
+		return fmt.Errorf("unexpected error: %v / %v", err1, err2)
+	}
+	if !bytes.Equal(pre1, wantPre) || !bytes.Equal(sh1, wantHash) {
+		return fmt.Errorf("first call already wrong: preimage %s hash %x, want %s / %x", clip(pre1), sh1, clip(wantPre), wantHash)
+	}
+	// the caller scribbles on what it was given
+	pp, hp := c.Pos%len(pre1), (c.Pos+13)%len(sh1) // distinct offsets: both slices may be one and the same buffer
+	pre1[pp] ^= byte(c.Mask)
+	sh1[hp] ^= byte(c.Mask)
+	pre2, err3 := tx.CalcInputPreimageLegacy(uint32(c.Idx), flag)
+	sh2, err4 := tx.CalcInputSignatureHash(uint32(c.Idx), flag)
+	pre3, _ := ref.ToLib(m).CalcInputPreimageLegacy(uint32(c.Idx), flag) // a different transaction object
+	sh3, _ := ref.ToLib(m).CalcInputSignatureHash(uint32(c.Idx), flag)
+	after := ref.Snapshot(tx)
+	// copy the observations, then undo the scribble (restores shared state if there is any)
+	pre2, sh2, pre3, sh3 = append([]byte{}, pre2...), append([]byte{}, sh2...), append([]byte{}, pre3...), append([]byte{}, sh3...)
+	sh1[hp] ^= byte(c.Mask)
+	pre1[pp] ^= byte(c.Mask)
+	if err3 != nil || err4 != nil {
+		return fmt.Errorf("unexpected error on second call: %v / %v", err3, err4)
+	}
+	what := fmt.Sprintf("idx=%d type=0x%02x (%d inputs, %d outputs)", c.Idx, c.HashType, len(m.In), len(m.Out))
+	if bug {
+		what = "SIGHASH_SINGLE without matching output, " + what
+	}
+	if !bytes.Equal(pre2, wantPre) || !bytes.Equal(pre3, wantPre) {
+		return fmt.Errorf("%s: after the caller wrote into the preimage/hash returned by an earlier call, CalcInputPreimageLegacy returns %s (same tx) / %s (fresh tx object), want %s", what, clip(pre2), clip(pre3), clip(wantPre))
+	}
+	if !bytes.Equal(sh2, wantHash) || !bytes.Equal(sh3, wantHash) {
+		return fmt.Errorf("%s: after the caller wrote into the preimage/hash returned by an earlier call, CalcInputSignatureHash returns %x (same tx) / %x (fresh tx object), want %x", what, sh2, sh3, wantHash)
+	}
+	if !ref.SameSnapshot(before, after) {
+		return fmt.Errorf("%s: writing into the returned buffers changed the transaction: %s", what, ref.DiffSnapshot(before, after))
+	}
+	return nil
+}
+
+func genFresh(t *rapid.T) Fresh {
+	o := gen.TxOpts{MinIn: 1, MaxIn: 4, MinOut: 0, MaxOut: 3, MaxScript: 80, ScriptEdges: []int{0, 1, 25, 75, 76}}
+	m := gen.Tx(t, o)
+	idx := rapid.IntRange(0, len(m.In)-1).Draw(t, "idx")
+	ht := rapid.SampledFrom([]int{3, 3, 0x83, 1, 2, 0x81, 0x82, 0, 0x23}).Draw(t, "type")
+	return Fresh{Tx: m, Idx: idx, HashType: ht, Pos: rapid.IntRange(0, 40).Draw(t, "pos"), Mask: rapid.IntRange(1, 255).Draw(t, "mask")}
+}
+
+func TestResultsNotShared(t *testing.T) {
+	pbt.Run(t, pbt.Sub[Fresh]{
+		Name: "results_not_shared", Quick: 6000, Thorough: 60000,
+		Gen:   genFresh,
+		Check: checkFresh,
+	})
 }
 
 func TestLegacy(t *testing.T) {
